@@ -59,6 +59,7 @@ import (
 	"github.com/ory/fosite/compose"
 	"github.com/ory/fosite/handler/openid"
 	"github.com/ory/fosite/storage"
+	"github.com/ory/fosite/token/hmac"
 	"github.com/ory/fosite/token/jwt"
 )
 
@@ -125,6 +126,7 @@ type stress struct {
 	counts   stCounters
 	panicsMu sync.Mutex
 	panics   map[string]bool
+	notes    map[string]bool // semantic findings ("HANDED …")
 }
 
 func stClients() map[string]fosite.Client {
@@ -269,6 +271,7 @@ func newStress(kind string) *stress {
 		pars: make(stBag, 1024), devs: make(stBag, 1024),
 		counts: stCounters{ok: map[string]int{}, er: map[string]int{}},
 		panics: map[string]bool{},
+		notes:  map[string]bool{},
 	}
 	return s
 }
@@ -452,16 +455,44 @@ func (s *stress) step(ctx context.Context, r *Rand) (string, error) {
 		}
 		s.devs.put(stItem{tok: resp.GetDeviceCode(), client: client}, s.grants)
 		return "device-authorize", nil
-	case k < 98:
+	case k < 96:
 		it, ok := s.devs.get()
 		if !ok {
 			return s.opAuthorize(ctx, r, client)
 		}
 		form := url.Values{"grant_type": {"urn:ietf:params:oauth:grant-type:device_code"}, "device_code": {it.tok}, "client_id": {it.client}}
 		return "device-poll", s.tokenRequest(ctx, form, it.client)
+	case k < 97:
+		// a request no handler is responsible for: the refusal is one of the library's shared error values
+		_, err := s.provider.NewAccessRequest(ctx, stPost("/token", url.Values{"grant_type": {"unknown_grant"}, "client_id": {client}}, client), stSession(""))
+		return "unhandled-grant", err
 	default:
-		return "client-credentials", s.tokenRequest(ctx, url.Values{"grant_type": {"client_credentials"}, "scope": {"photos"}}, client)
+		if r.Intn(4) == 0 {
+			return "client-credentials", s.tokenRequest(ctx, url.Values{"grant_type": {"client_credentials"}, "scope": {"photos"}}, client)
+		}
+		// a token nobody else gets to see: handed to this caller, it must be active when looked at right away
+		// (C19: "every token handed to a caller is either active or was invalidated by one of the concurrent requests")
+		ar, err := s.provider.NewAccessRequest(ctx, stPost("/token", url.Values{"grant_type": {"client_credentials"}, "scope": {"photos"}}, client), stSession(""))
+		if err != nil {
+			return "client-credentials-private", err
+		}
+		ar.GrantScope("photos")
+		resp, err := s.provider.NewAccessResponse(ctx, ar)
+		if err != nil {
+			return "client-credentials-private", err
+		}
+		if _, _, ierr := s.provider.IntrospectToken(ctx, resp.GetAccessToken(), fosite.AccessToken, stSession("")); ierr != nil {
+			s.note("HANDED", "access token handed out by client_credentials is refused at once: "+errWire(ierr))
+		}
+		return "client-credentials-private", nil
 	}
+}
+
+// note records a semantic finding of the stress itself (reported like the race reports)
+func (s *stress) note(kind, what string) {
+	s.panicsMu.Lock()
+	s.notes[kind+" "+what] = true
+	s.panicsMu.Unlock()
 }
 
 func (s *stress) opAuthorize(ctx context.Context, r *Rand, client string) (string, error) {
@@ -491,7 +522,56 @@ func (s *stress) safeStep(ctx context.Context, r *Rand) {
 		s.done.Add(1)
 	}()
 	op, err := s.step(ctx, r)
+	if err != nil {
+		// what an application does with a refusal: hand it to the library's writer
+		s.provider.WriteAccessError(ctx, httptest.NewRecorder(), nil, err)
+	}
 	s.counts.add(op, err)
+}
+
+// hmacPhase: several HMAC strategies (compose gives the core OAuth2 strategy and the device strategy one each)
+// mint and validate concurrently; a token must validate right after it was minted, and no two mints are equal.
+func (s *stress) hmacPhase(d time.Duration) {
+	cfg := &fosite.Config{GlobalSecret: []byte("0123456789abcdef0123456789abcdef-stress")}
+	ctx := context.Background()
+	var wg sync.WaitGroup
+	var mu sync.Mutex
+	seen := map[string]bool{}
+	deadline := time.Now().Add(d)
+	for g := 0; g < 8; g++ {
+		wg.Add(1)
+		go func() {
+			defer wg.Done()
+			st := &hmac.HMACStrategy{Config: cfg}
+			n := 0
+			for time.Now().Before(deadline) {
+				tok, sig, err := st.Generate(ctx)
+				if err != nil {
+					s.note("HANDED", "HMAC Generate fails: "+err.Error())
+					return
+				}
+				if verr := st.Validate(ctx, tok); verr != nil {
+					s.note("HANDED", "HMAC token refused right after Generate: "+errWire(verr))
+					return
+				}
+				if n%16 == 0 {
+					mu.Lock()
+					dup := seen[sig]
+					seen[sig] = true
+					mu.Unlock()
+					if dup {
+						s.note("HANDED", "HMAC Generate returned the same value twice")
+						return
+					}
+				}
+				n++
+			}
+			s.counts.mu.Lock()
+			s.counts.ok["hmac-mint-validate"] += n
+			s.counts.mu.Unlock()
+		}()
+	}
+	wg.Wait()
 }
 
 // run returns false on deadlock (the workers are then abandoned).  The watchdog looks at every
@@ -605,6 +685,7 @@ func TestStress(t *testing.T) {
 	goodSecretHash()
 	for _, kind := range kinds {
 		s := newStress(kind)
+		s.hmacPhase(700 * time.Millisecond)
 		alive := s.run(t, goroutines, d, seed)
 		// the lines below are the child's protocol with TestStressSummary (stderr, like the race reports)
 		s.counts.mu.Lock()
@@ -620,6 +701,17 @@ func TestStress(t *testing.T) {
 		for _, p := range ps {
 			fmt.Fprintf(os.Stderr, "STRESS-PANIC config=%s %s\n", kind, strings.ReplaceAll(p, "\n", " "))
 			t.Errorf("config=%s: panic %s", kind, p)
+		}
+		s.panicsMu.Lock()
+		var ns []string
+		for n := range s.notes {
+			ns = append(ns, n)
+		}
+		s.panicsMu.Unlock()
+		sort.Strings(ns)
+		for _, n := range ns {
+			fmt.Fprintf(os.Stderr, "STRESS-NOTE config=%s %s\n", kind, strings.ReplaceAll(n, "\n", " "))
+			t.Errorf("config=%s: %s", kind, n)
 		}
 		if !alive {
 			return
@@ -767,6 +859,16 @@ func stSummarise(stderr string) (findings []string, details map[string][]string,
 			if !seen[key] {
 				seen[key] = true
 				findings = append(findings, key)
+			}
+		case strings.HasPrefix(line, "STRESS-NOTE "):
+			// "STRESS-NOTE config=<c> <KIND> <text>"
+			f := strings.SplitN(strings.TrimPrefix(line, "STRESS-NOTE "), " ", 3)
+			if len(f) == 3 {
+				key := f[1] + " " + f[0] + " " + f[2]
+				if !seen[key] {
+					seen[key] = true
+					findings = append(findings, key)
+				}
 			}
 		case strings.HasPrefix(line, "STRESS-DEADLOCK "):
 			f := strings.Fields(line)
